@@ -399,7 +399,10 @@ func execC10Full(a []string) string {
 		func(h *qnet.Header) bool { return h.Action%2 == 0 },
 	}
 	queues := make([]chan *qnet.Message, 3)
+	oneShot := make(chan *qnet.Message, n+8)
 	ep := qnet.EndPointFinalizer(qnet.ConnStream(x), func(e qnet.EndPoint) {
+		// in front: a handler that selects everything and removes itself on message 2
+		e.MakeHandler(func(h *qnet.Header) (bool, bool) { return true, h.ID != 2 }, oneShot, func(error) {})
 		for i := range queues {
 			f := sel[i]
 			queues[i] = make(chan *qnet.Message, caps[i])
@@ -445,7 +448,19 @@ func execC10Full(a []string) string {
 			check(q, <-queues[q])
 		}
 	}
-	return c10OrderAnswer(recv)
+	var first []uint32
+	for len(oneShot) > 0 {
+		if m, ok := <-oneShot; ok {
+			first = append(first, m.Header.ID)
+		} else {
+			break
+		}
+	}
+	ans := c10OrderAnswer(recv)
+	if n >= 2 {
+		ans = strings.Replace(ans, "valid ", fmt.Sprintf("valid one-shot=[%s] ", fmtIDs(first)), 1)
+	}
+	return ans
 }
 
 func init() {
